@@ -194,10 +194,11 @@ let () =
              let a = bytes_of_hex h in
              let l = lf_index (mem_of a) (n_of_int (Array.length a)) in
              Printf.sprintf "%d:%s" (List.length l) (String.concat "," (List.map (fun x -> string_of_int (int_of_n x)) l))
-           | ["doc"; h; reg; mode; eof] ->
+           | "doc" :: h :: reg :: mode :: eof :: rest ->
              let a = bytes_of_hex h in
+             let len = match rest with [l] -> int_of_string l | _ -> Array.length a in
              let o = mk_opts (parse_registry reg) (z_of_int (int_of_string mode)) (eof = "1") in
-             show_doc_result o (run_doc c o (mem_of a) (n_of_int (Array.length a))) verbose
+             show_doc_result o (run_doc c o (mem_of a) (n_of_int len)) verbose
            | cmd :: _ -> "BADCMD " ^ cmd
          with Failure m -> "DRIVERFAIL " ^ m
        in
